@@ -11,12 +11,10 @@ import (
 	"go/token"
 	"go/types"
 	"os"
-	"reflect"
 	"strings"
 	"unsafe"
 
 	"golang.org/x/tools/go/ssa"
-	"golang.org/x/tools/internal/typeparams"
 )
 
 // If the target program panics, the interpreter panics with this type.
@@ -126,6 +124,8 @@ func asInt64(x value) int64 {
 		return int64(x)
 	case uintptr:
 		return int64(x)
+	case sym:
+		return x.t.C.Concretize(x.t)
 	}
 	panic(fmt.Sprintf("cannot convert %T to int64", x))
 }
@@ -146,6 +146,8 @@ func asUint64(x value) uint64 {
 		return x
 	case uintptr:
 		return uint64(x)
+	case sym:
+		return uint64(x.t.C.Concretize(x.t))
 	}
 	panic(fmt.Sprintf("cannot convert %T to uint64", x))
 }
@@ -164,8 +166,10 @@ func asUnsigned(x value) (value, bool) {
 		return uint32(x), x >= 0
 	case int64:
 		return uint64(x), x >= 0
-	case uint, uint8, uint32, uint64, uintptr:
+	case uint, uint8, uint16, uint32, uint64, uintptr:
 		return x, true
+	case sym:
+		return uint64(x.t.C.Concretize(x.t)), true
 	}
 	panic(fmt.Sprintf("cannot convert %T to unsigned", x))
 }
@@ -256,12 +260,9 @@ func zero(t types.Type) value {
 		}
 		return s
 	case *types.Chan:
-		return chan value(nil)
+		return (*vchan)(nil)
 	case *types.Map:
-		if usesBuiltinMap(t.Key()) {
-			return map[value]value(nil)
-		}
-		return (*hashmap)(nil)
+		return (*omap)(nil)
 	case *types.Signature:
 		return (*ssa.Function)(nil)
 	}
@@ -313,21 +314,11 @@ func slice(x, lo, hi, max value) value {
 // lookup returns x[idx] where x is a map.
 func lookup(instr *ssa.Lookup, x, idx value) value {
 	switch x := x.(type) { // map or string
-	case map[value]value, *hashmap:
-		var v value
-		var ok bool
-		switch x := x.(type) {
-		case map[value]value:
-			v, ok = x[idx]
-		case *hashmap:
-			v = x.lookup(idx.(hashable))
-			ok = v != nil
-		}
-		if !ok {
-			v = zero(instr.X.Type().Underlying().(*types.Map).Elem())
-		}
+	case *omap:
+		tElt := instr.X.Type().Underlying().(*types.Map).Elem()
+		v, ok := x.lookup(idx, tElt)
 		if instr.CommaOk {
-			v = tuple{v, ok}
+			return tuple{v, ok}
 		}
 		return v
 	}
@@ -338,6 +329,9 @@ func lookup(instr *ssa.Lookup, x, idx value) value {
 // numeric datatypes and strings.  Both operands must have identical
 // dynamic type.
 func binop(op token.Token, t types.Type, x, y value) value {
+	if hasSym(x) || hasSym(y) {
+		return symBinop(op, t, x, y)
+	}
 	switch op {
 	case token.ADD:
 		switch x.(type) {
@@ -816,10 +810,8 @@ func eqnil(t types.Type, x, y value) bool {
 		// Since these types don't support comparison,
 		// one of the operands must be a literal nil.
 		switch x := x.(type) {
-		case *hashmap:
-			return (x != nil) == (y.(*hashmap) != nil)
-		case map[value]value:
-			return (x != nil) == (y.(map[value]value) != nil)
+		case *omap:
+			return (x != nil) == (y.(*omap) != nil)
 		case *ssa.Function:
 			switch y := y.(type) {
 			case *ssa.Function:
@@ -841,16 +833,11 @@ func eqnil(t types.Type, x, y value) bool {
 func unop(instr *ssa.UnOp, x value) value {
 	switch instr.Op {
 	case token.ARROW: // receive
-		v, ok := <-x.(chan value)
-		if !ok {
-			v = zero(instr.X.Type().Underlying().(*types.Chan).Elem())
-		}
-		if instr.CommaOk {
-			v = tuple{v, ok}
-		}
-		return v
+		panic("unreachable: receive handled in visitInstr")
 	case token.SUB:
 		switch x := x.(type) {
+		case sym:
+			return sym{x.t.C.Neg(x.t), x.k}
 		case int:
 			return -x
 		case int8:
@@ -883,8 +870,14 @@ func unop(instr *ssa.UnOp, x value) value {
 			return -x
 		}
 	case token.MUL:
-		return load(typeparams.MustDeref(instr.X.Type()), x.(*value))
+		if x.(*value) == nil {
+			panic(targetRuntimeError("invalid memory address or nil pointer dereference"))
+		}
+		return load(mustDeref(instr.X.Type()), x.(*value))
 	case token.NOT:
+		if sx, ok := x.(sym); ok {
+			return sym{sx.t.C.Not(sx.t), sx.k}
+		}
 		return !x.(bool)
 	case token.XOR:
 		switch x := x.(type) {
@@ -980,15 +973,13 @@ func callBuiltin(caller *frame, callpos token.Pos, fn *ssa.Builtin, args []value
 		return copy(args[0].([]value), src.([]value))
 
 	case "close": // close(chan T)
-		close(args[0].(chan value))
+		caller.i.ex.chanClose(args[0].(*vchan))
 		return nil
 
 	case "delete": // delete(map[K]value, K)
 		switch m := args[0].(type) {
-		case map[value]value:
-			delete(m, args[1])
-		case *hashmap:
-			m.delete(args[1].(hashable))
+		case *omap:
+			m.delete(args[1])
 		default:
 			panic(fmt.Sprintf("illegal map type: %T", m))
 		}
@@ -1019,12 +1010,10 @@ func callBuiltin(caller *frame, callpos token.Pos, fn *ssa.Builtin, args []value
 			return len((*x).(array))
 		case []value:
 			return len(x)
-		case map[value]value:
-			return len(x)
-		case *hashmap:
+		case *omap:
 			return x.len()
-		case chan value:
-			return len(x)
+		case *vchan:
+			return x.length()
 		default:
 			panic(fmt.Sprintf("len: illegal operand: %T", x))
 		}
@@ -1037,8 +1026,8 @@ func callBuiltin(caller *frame, callpos token.Pos, fn *ssa.Builtin, args []value
 			return cap((*x).(array))
 		case []value:
 			return cap(x)
-		case chan value:
-			return cap(x)
+		case *vchan:
+			return x.capacity()
 		default:
 			panic(fmt.Sprintf("cap: illegal operand: %T", x))
 		}
@@ -1105,10 +1094,8 @@ func callBuiltin(caller *frame, callpos token.Pos, fn *ssa.Builtin, args []value
 
 func rangeIter(x value, t types.Type) iter {
 	switch x := x.(type) {
-	case map[value]value:
-		return &mapIter{iter: reflect.ValueOf(x).MapRange()}
-	case *hashmap:
-		return &hashmapIter{iter: reflect.ValueOf(x.entries()).MapRange()}
+	case *omap:
+		return &omapIter{m: x}
 	case string:
 		return &stringIter{Reader: strings.NewReader(x)}
 	}
@@ -1216,6 +1203,9 @@ func conv(t_dst, t_src types.Type, x value) value {
 		}
 
 	case *types.Basic:
+		if sx, ok := x.(sym); ok {
+			return symConv(ut_dst, ut_src, sx)
+		}
 		x = widen(x)
 
 		// integer -> string?
@@ -1424,6 +1414,10 @@ func foldLeft(op func(value, value) value, args []value) value {
 }
 
 func min(x, y value) value {
+	if hasSym(x) || hasSym(y) {
+		lt := symBinop(token.LSS, nil, y, x)
+		return symIte(lt, y, x)
+	}
 	switch x := x.(type) {
 	case float32:
 		return fmin(x, y.(float32))
@@ -1439,6 +1433,10 @@ func min(x, y value) value {
 }
 
 func max(x, y value) value {
+	if hasSym(x) || hasSym(y) {
+		gt := symBinop(token.GTR, nil, y, x)
+		return symIte(gt, y, x)
+	}
 	switch x := x.(type) {
 	case float32:
 		return fmax(x, y.(float32))
